@@ -375,3 +375,44 @@ Definition mon_cut (res : list jres) : bool :=
 
 Definition mon_nohang (res : list jres) : bool :=
   forallb (fun r => negb (Nat.eqb (jr_class r) 4) && negb (Nat.eqb (jr_class r) 0)) res.
+
+(* ------------------------------------------------------------------------------------
+   Split calls (transport.go connPool.roundTrip, the protocol.Splitter branch, and
+   joined.await).  A call whose request is split into sub-requests m_0 .. m_{n-1} makes
+       promises[i] = p.sendRequest(ctx, m_i, state)         for i = 0 .. n-1, in this order
+       results[i]  = promises[i].await(ctx)                 (joined.await)
+       merger.Merge(requests, results)                      with requests[i] = m_i
+   so every sub-request is an ordinary requester of the pool and result i is, BY POSITION,
+   the outcome of the requester that carries m_i.  [subs] lists these requesters in request
+   order; [split_results] is the [results] slice handed to Merge.  The mergers rely on this
+   alignment (listoffsets.Response.Merge relabels the timestamps of result i from request i,
+   listgroups.Response.Merge labels the groups of result i with the broker of request i). *)
+Definition sub_result (s : pstate) (r : rqid) : option result :=
+  match qph (rq s r) with QDone v => Some v | _ => None end.
+
+Definition split_results (s : pstate) (subs : list rqid) : list (option result) :=
+  map (sub_result s) subs.
+
+(* harness op trsplit: questions (k1, k2) asked by one split call, the (question, answer)
+   pairs the broker produced, the (question, answer) pairs delivered to the caller.
+     mon_split   every question has exactly one delivered answer and it is an answer the
+                 broker produced for THAT question; nothing else is delivered. *)
+Record qa := mkQa { qa_k1 : Z; qa_k2 : Z; qa_val : Z }.
+
+Definition same_q (k1 k2 : Z) (a : qa) : bool := (qa_k1 a =? k1) && (qa_k2 a =? k2).
+Definition qa_eqb (a b : qa) : bool :=
+  (qa_k1 a =? qa_k1 b) && (qa_k2 a =? qa_k2 b) && (qa_val a =? qa_val b).
+
+Definition mon_split (asked : list (Z * Z)) (broker delivered : list qa) : bool :=
+  Nat.eqb (length delivered) (length asked) &&
+  forallb (fun q =>
+     match filter (same_q (fst q) (snd q)) delivered with
+     | [d] => existsb (qa_eqb d) broker
+     | _ => false
+     end) asked.
+
+(* harness op trpage: per call, the number of bytes it read from its response that are not the
+   bytes the broker sent for ITS request (cross-talk through the shared page pool of the
+   protocol package; the page reference counting itself is property C05's model).
+     mon_pure    no call read a foreign byte. *)
+Definition mon_pure (foreign : list Z) : bool := forallb (Z.eqb 0) foreign.
